@@ -50,9 +50,9 @@ def main():
         lines.append('Eval vm_compute in show (emit (fun b => b) %s (arr_of %d %s) (arr_of %d %s) (arr_of %d %s) (arr_of %d %s) %d %d).'
                      % (cb(c['lasym']), c['ntor'], coq_tbl(c['zs'][0]), c['ntor'], coq_tbl(c['zs'][1]), c['ntor'], coq_tbl(c['zs'][2]), c['ntor'], coq_tbl(c['zs'][3]), c['mpol'], c['ntor']))
         lines.append('Eval vm_compute in (ntor_written %d %d, mpol_default %d, ntor_default %d).' % (c['ntor'], c['ntormax'], c['ntheta'], 15))
-    path = os.path.join(COQ, 'gprops', 'K_vmec_cases.v')
+    path = os.path.join(COQ, 'gprops', 'K_vmec_cases_%d.v' % os.getpid())
     open(path, 'w').write('\n'.join(lines) + '\n')
-    p = subprocess.run(['coqc', '-Q', 'theories', 'QSC', '-Q', 'gprops', 'QSCGProps', 'gprops/K_vmec_cases.v'], cwd=COQ, capture_output=True, text=True, timeout=900)
+    p = subprocess.run(['coqc', '-Q', 'theories', 'QSC', '-Q', 'gprops', 'QSCGProps', 'gprops/K_vmec_cases_%d.v' % os.getpid()], cwd=COQ, capture_output=True, text=True, timeout=900)
     if p.returncode != 0:
         res['mismatches'].append('Coq evaluation of the VmecEmit model failed: ' + (p.stdout + p.stderr)[-600:])
         print(json.dumps(res)); return
